@@ -118,7 +118,34 @@ def main():
             except Exception as ex:  # noqa
                 r['error'] = type(ex).__name__ + ': ' + str(ex)[:200]
             res.append(r)
-        out.append({'tree': tree, 'results': res})
+        # queries about OTHER code on the same report (root= / student_code=), after the submission was verified:
+        # they must see that other code, exactly as on a fresh report
+        other_res = []
+        if prog.get('other') is not None:
+            from pedal.core.report import Report
+            from pedal.source import verify
+            from pedal.cait.cait_api import find_asts
+            try:
+                verify()
+            except Exception:
+                pass
+            other = prog['other']
+            for kind, arg in prog.get('other_queries', []):
+                rec = {}
+                for name in ('history', 'fresh'):
+                    rep = MAIN_REPORT if name == 'history' else Report()
+                    try:
+                        if kind == 'ast':
+                            found = find_asts(arg, student_code=other, report=rep)
+                        elif kind == 'op':
+                            found = find_operation(arg, root=parse_program(student_code=other, report=rep), report=rep)
+                        else:
+                            found = find_function_calls(arg, root=parse_program(student_code=other, report=rep), report=rep)
+                        rec[name] = sorted(getattr(u.astNode, 'lineno', 0) or 0 for u in found)
+                    except Exception as ex:
+                        rec[name] = 'error ' + type(ex).__name__
+                other_res.append(rec)
+        out.append({'tree': tree, 'results': res, 'other': other_res})
     # live CPython symbol table facts
     syms = {}
     for sym in data.get('symbols', []):
